@@ -145,6 +145,14 @@ def gen(rng, nrng, tier):
                 for m in ms[: (2 if tier == "quick" else 5)]:
                     yield ("shift", {"cls": cls, "x": x, "nfft": nfft, "m": m})
                 yield ("real", {"cls": cls, "x": xr, "nfft": nfft})
+    # random configurations of every class (orders, lags, taper counts)
+    for i in range(28 if tier == "quick" else 400):
+        cls = C.CLASSES[i % len(C.CLASSES)]
+        cfg = C.random_cfg(nrng, cls, 40, boundary=False)
+        nfft = max([64, 65][i % 2], C.min_nfft(cls, 40, cfg))
+        xx = nrng.standard_normal(40) + 1j * nrng.standard_normal(40) + 2 * np.exp(2j * np.pi * 0.11 * np.arange(40))
+        yield ("shift", {"cls": cls, "x": xx, "nfft": nfft, "m": int(nrng.integers(1, nfft)), "cfg": cfg})
+        yield ("real", {"cls": cls, "x": nrng.standard_normal(40) + np.cos(0.9 * np.arange(40)), "nfft": nfft, "cfg": cfg})
     # every window name through the Fourier classes (the window is part of the estimator's configuration)
     from spectrum.window import window_names
     wn = sorted(window_names)
